@@ -75,6 +75,11 @@ def build(prop):
     c = cfg(prop)
     os.makedirs(BIN, exist_ok=True)
     sync_gosum()
+    # the recording visitor is regenerated from the ast.Visitor interface of /repo's working tree
+    g = subprocess.run(["go", "run", "./cmd/genrec"], cwd=ROOT, env=goenv(), stdout=subprocess.PIPE, stderr=subprocess.STDOUT, text=True)
+    if g.returncode != 0:
+        print("[vdrive] genrec failed:\n%s" % g.stdout)
+        return None
     out = os.path.join(BIN, c["pkg"] + (".race" if c["race"] else "") + ".test")
     cmd = ["go", "test", "-c", "-vet=off", "-o", out]
     if c["race"]:
